@@ -27,13 +27,13 @@ func init() {
 
 // runtime-only derived fields: not configuration, never persisted (one reason each).
 var c19RuntimeOnly = map[string]string{
-	"Listener.PerConnBufferLimitBytes": "fixed default set at load; source comment: do not support config",
-	"Listener.InheritListener":         "runtime handle of an inherited socket",
-	"Listener.InheritPacketConn":       "runtime handle of an inherited socket",
-	"Listener.Remain":                  "runtime marker used while inheriting listeners",
-	"Listener.ListenerTag":             "runtime identifier assigned by the connection handler",
-	"Listener.ListenerScope":           "runtime label, never read from configuration",
-	"ClusterManagerConfig.Clusters":    "filled from ClustersJson or the cluster config directory at load; dumped through ClustersJson or per-file",
+	"Listener.PerConnBufferLimitBytes":     "fixed default set at load; source comment: do not support config",
+	"Listener.InheritListener":             "runtime handle of an inherited socket",
+	"Listener.InheritPacketConn":           "runtime handle of an inherited socket",
+	"Listener.Remain":                      "runtime marker used while inheriting listeners",
+	"Listener.ListenerTag":                 "runtime identifier assigned by the connection handler",
+	"Listener.ListenerScope":               "runtime label, never read from configuration",
+	"ClusterManagerConfig.Clusters":        "filled from ClustersJson or the cluster config directory at load; dumped through ClustersJson or per-file",
 	"RouterConfiguration.RouterConfigPath": "handled by (Un)MarshalJSON as a directory dump",
 }
 
@@ -43,6 +43,7 @@ func runC19(c *Ctx) {
 	c.Rule("C19.R1", "custom (Un)MarshalJSON pairs move the same (derived, shadow) field pairs in both directions", 20)
 	c.Rule("C19.R2", "no duplicate JSON keys at the winning depth; no hijacking promoted (Un)MarshalJSON", 40)
 	c.Rule("C19.R3", "the persisted dump reassembles every part of the effective model", 8)
+	c.Rule("C19.R6", "MarshalJSON clears a field of its receiver copy only depending on emptiness, never on content", 1)
 	c.Rule("C19.R5", "files written by the directory-mode dump carry the extension the loader requires", 2)
 	c.Rule("C19.R4", "producing the persisted dump writes only freshly allocated memory", 5)
 	c.NotDecided = append(c.NotDecided, "value-level equivalence of load(dump(load(x))) and load(x): defaults, omitempty vs explicit zero, duration/byte-size formatting (mosn.io/api)", "the shipped sample configurations (needs running the loader)", "per-filter free-form config maps")
@@ -76,6 +77,7 @@ func runC19(c *Ctx) {
 			continue
 		}
 		npairs++
+		c19Lossless(c, mar, key)
 		// derived fields
 		var derived []string
 		for i := 0; i < st.NumFields(); i++ {
@@ -453,9 +455,9 @@ func c19TagLint(c *Ctx, tp *types.Package) {
 }
 
 type jsonField struct {
-	key   string
-	depth int
-	name  string
+	key    string
+	depth  int
+	name   string
 	tagged bool
 }
 
